@@ -6,7 +6,7 @@ patch="$1"; shift
 git -C /tmp/wtdev checkout -q --detach $(git -C /repo rev-parse HEAD)
 git -C /tmp/wtdev apply "$patch" || { echo "patch does not apply"; exit 3; }
 for p in "$@"; do
-  /verif/check --raw check -repo /tmp/wtdev -prop "$p" -no-evidence > /tmp/try_seed_dev_$p.out 2>&1; rc=$?
+  /verif/check --raw check -repo /tmp/wtdev -prop "$p" -no-evidence -no-conformance > /tmp/try_seed_dev_$p.out 2>&1; rc=$?
   echo "== $p exit=$rc"; grep -E "^(VIOLATION|UNDECIDED|VACUOUS|KNOWN|property=)" /tmp/try_seed_dev_$p.out | cut -c1-330
 done
 git -C /tmp/wtdev apply -R "$patch"
